@@ -5,7 +5,7 @@ use hv::util as hutil;
 #[path = "staticfs_common/mod.rs"]
 mod common;
 
-use common::{leak, request, Backend};
+use common::{leak, Backend};
 use humphrey::handlers::{serve_as_file_path, serve_dir, serve_file};
 use humphrey::http::{Request, Response};
 use humphrey_server::config::{CacheConfig, Config, LoggingConfig};
@@ -58,8 +58,20 @@ impl Backend for Threaded {
     fn handlers() -> &'static [&'static str] {
         &["serve_dir", "directory", "directory_cached", "file_path", "serve_file"]
     }
-    fn call(&self, h: &str, route: &str, uri: &str, alt: bool) -> Response {
-        let req = request(uri);
+    fn parse(&self, wire: &[u8]) -> Option<Request> {
+        let mut r: &[u8] = wire;
+        Request::from_stream(&mut r, "127.0.0.1:4242".parse().unwrap()).ok()
+    }
+    fn spawn_server(dir: &'static str, port: u16) -> bool {
+        std::thread::spawn(move || {
+            let app: humphrey::App<()> = humphrey::App::new()
+                .with_path_aware_route("/static/*", serve_dir::<()>(dir))
+                .with_route("/*", serve_as_file_path::<()>(dir));
+            let _ = app.run(("127.0.0.1", port));
+        });
+        true
+    }
+    fn call(&self, h: &str, route: &str, req: Request, alt: bool) -> Response {
         match h {
             "serve_dir" => if alt { (self.sd_slash)(req, self.unit.clone(), route) } else { (self.sd)(req, self.unit.clone(), route) },
             "directory" => directory_handler(req, self.state.clone(), if alt { self.dir_slash } else { self.dir }, route, 0),
